@@ -2237,7 +2237,9 @@ func (c S3ApiController) PutActions(ctx *fiber.Ctx) error {
 		if bodyi != nil {
 			body = bodyi.(io.Reader)
 		} else {
-			body = bytes.NewReader([]byte{})
+			// not taken for an upload by the middlewares: they have
+			// read and verified the body, which is what is uploaded
+			body = bytes.NewReader(ctx.Body())
 		}
 
 		res, err := c.be.UploadPart(ctx.Context(),
@@ -2733,7 +2735,9 @@ func (c S3ApiController) PutActions(ctx *fiber.Ctx) error {
 	if bodyi != nil {
 		body = bodyi.(io.Reader)
 	} else {
-		body = bytes.NewReader([]byte{})
+		// not taken for an upload by the middlewares: they have
+		// read and verified the body, which is what is uploaded
+		body = bytes.NewReader(ctx.Body())
 	}
 
 	res, err := c.be.PutObject(ctx.Context(),
